@@ -431,7 +431,7 @@ def generate():
         out += "Definition loss_square %s : R := %s%%R.\n" % (KARGS["Square"], LS.value)
         out += "Definition loss_normal %s : R := %s%%R.\n" % (KARGS["Normal"], LN.value)
         return out
-    except Unsupported as u:
+    except (Unsupported, ValueError, TypeError, IndexError, KeyError, AttributeError, AssertionError, RecursionError) as u:   # any surprise in the source = fail closed
         # the intended model, so that the correspondence still says where the code departs from it
         return (failed("GradGen", str(u)) + HEAD +
                 "Definition code_facts : gfacts := good_facts.\n"
